@@ -342,6 +342,11 @@ func computeRandom() float64 {
 			continue
 		}
 		frac, _ := math.Frexp(x) // 52 bits of randomness
+		if frac == 0.5 {
+			// The result would be exactly 0, which the upload server
+			// treats as a missing X and rejects.
+			continue
+		}
 		return frac*2 - 1
 	}
 }
